@@ -137,7 +137,12 @@ func (f *AppArmorProfileFile) resolveValues(input string) ([]string, error) {
 					return nil, fmt.Errorf("recursive variable found in: %s", varname)
 				}
 				// Only this occurrence: a second one takes all the values again
-				newValues := strings.Replace(input, variable, v, 1)
+				// The quotes around a value delimit it, they are not part of it
+				inner, quoted := unquote(v)
+				newValues := strings.Replace(input, variable, inner, 1)
+				if _, ok := unquote(input); quoted && !ok {
+					newValues = `"` + newValues + `"`
+				}
 				newValues = strings.ReplaceAll(newValues, "//", "/")
 				res, err := f.resolveValues(newValues)
 				if err != nil {
@@ -152,6 +157,14 @@ func (f *AppArmorProfileFile) resolveValues(input string) ([]string, error) {
 		return nil, fmt.Errorf("variable %s not defined", varname)
 	}
 	return values, nil
+}
+
+// unquote returns the text between the double quotes of a quoted value.
+func unquote(value string) (string, bool) {
+	if len(value) >= 2 && strings.HasPrefix(value, `"`) && strings.HasSuffix(value, `"`) {
+		return value[1 : len(value)-1], true
+	}
+	return value, false
 }
 
 // resolveInclude resolves all includes defined in the profile preamble
